@@ -12,7 +12,7 @@ from .srcmodel import AnalysisError, Repo
 from .algebra import Poly, Rat, Z8, AlgebraError
 from . import ndarr
 from .ndarr import Arr, InterpRaise
-from .absint import Interp, Obj, Closure, ClassRef
+from .absint import Interp, Obj, Closure, ClassRef, BoundMethod
 from .stencil import StencilRunner, taylor_signature, FV, offsets_of, fx_used, fx_weight, FX_KEY
 from .pipeline import Pipeline, PinvRegistry, column_exponents, ASSUMED_POSITIVE
 
@@ -133,6 +133,19 @@ class StencilFact(object):
         self.coords = []      # per output element: dict with sig etc.
 
 
+class _BoundClosure(Closure):
+    """A bound method (e.g. a classmethod of a ...DifferenceFunctions class) in the place where the rules expect the plain
+    function: called like it, located and named like the function it wraps."""
+
+    def __init__(self, bm):
+        f = bm.func
+        Closure.__init__(self, f.interp, f.node, f.module, parent_frame=f.parent_frame, owner=f.owner, name=f.name)
+        self.bm = bm
+
+    def __call__(self, *args, **kwargs):
+        return self.bm(*args, **kwargs)
+
+
 class Facts(object):
     def __init__(self, repo):
         self.repo = repo
@@ -214,6 +227,8 @@ class Facts(object):
         out['order'] = I.getattr(obj, 'order')
         try:
             d = I.getattr(obj, 'diff')
+            if isinstance(d, BoundMethod) and isinstance(d.func, Closure):
+                d = _BoundClosure(d)          # a classmethod / bound method as the difference function: same role
             out['diff'] = d
             out['diff_name'] = d.qualname if isinstance(d, Closure) else repr(d)
         except InterpRaise as exc:
